@@ -594,7 +594,7 @@ func (fr *Frame) appendOp(st *State, s, t *Val, tT types.Type) *Val {
 		pre := st.clone()
 		srcArr = func(l leaf, j *Term) *Term {
 			arr := pre.heapGet(heapKey(root, l.path), SArr(SInt, SArr(SInt, sortOf(l.t))))
-			return Select(Select(arr, t.X), Add(t.Off, j))
+			return Select(Select(arr, t.X), SliceIdx(t.Off, j))
 		}
 	}
 	newLen := Add(s.Len, n)
@@ -619,7 +619,7 @@ func (fr *Frame) appendOp(st *State, s, t *Val, tT types.Type) *Val {
 			inPlace := oldC
 			freshC := Fresh("append!fresh", srt.Elem)
 			q := BoundVar("j", SInt)
-			c.addFact(Forall([]*Term{q}, Implies(And(Le(Num(0), q), Lt(q, s.Len)), Eq(Select(freshC, q), Select(oldC, Add(s.Off, q))))))
+			c.addFact(Forall([]*Term{q}, Implies(And(Le(Num(0), q), Lt(q, s.Len)), Eq(Select(freshC, q), Select(oldC, SliceIdx(s.Off, q))))))
 			for j := int64(0); j < n.Val.Int64(); j++ {
 				v := srcArr(l, Num(j))
 				inPlace = Store(inPlace, Add(Add(s.Off, s.Len), Num(j)), v)
@@ -631,15 +631,17 @@ func (fr *Frame) appendOp(st *State, s, t *Val, tT types.Type) *Val {
 			st.heapSet(key, Ite(fits, a1, a2))
 			continue
 		}
-		newC = Fresh("append!content", srt.Elem)
-		q := BoundVar("j", SInt)
-		// in place: old content preserved outside [off+len, off+len+n); appended part equals source
-		// fresh: [0,len) copies old; [len, len+n) source
-		base := Ite(fits, Add(s.Off, s.Len), s.Len)
-		c.addFact(Forall([]*Term{q}, Implies(And(Le(Num(0), q), Lt(q, n)), Eq(Select(newC, Add(base, q)), srcArr(l, q)))))
-		c.addFact(Implies(fits, Forall([]*Term{q}, Implies(Or(Lt(q, Add(s.Off, s.Len)), Le(Add(Add(s.Off, s.Len), n), q)), Eq(Select(newC, q), Select(oldC, q))))))
-		c.addFact(Implies(Not(fits), Forall([]*Term{q}, Implies(And(Le(Num(0), q), Lt(q, s.Len)), Eq(Select(newC, q), Select(oldC, Add(s.Off, q)))))))
-		st.heapSet(key, Store(arr, resArr, newC))
+		// two alternatives, each defined element-wise by facts triggered on reads of the new content
+		_ = newC
+		ci := Fresh("append!inplace", srt.Elem)
+		cf := Fresh("append!fresh", srt.Elem)
+		m := BoundVar("m", SInt)
+		end := Add(s.Off, s.Len)
+		c.addFact(ForallPat([]*Term{m}, Implies(Or(Lt(m, end), Le(Add(end, n), m)), Eq(Select(ci, m), Select(oldC, m))), Select(ci, m)))
+		c.addFact(ForallPat([]*Term{m}, Implies(And(Le(end, m), Lt(m, Add(end, n))), Eq(Select(ci, m), srcArr(l, Sub(m, end)))), Select(ci, m)))
+		c.addFact(ForallPat([]*Term{m}, Implies(And(Le(Num(0), m), Lt(m, s.Len)), Eq(Select(cf, m), Select(oldC, SliceIdx(s.Off, m)))), Select(cf, m)))
+		c.addFact(ForallPat([]*Term{m}, Implies(And(Le(s.Len, m), Lt(m, Add(s.Len, n))), Eq(Select(cf, m), srcArr(l, Sub(m, s.Len)))), Select(cf, m)))
+		st.heapSet(key, Ite(fits, Store(arr, s.X, ci), Store(arr, fresh, cf)))
 	}
 	return &Val{K: KSlice, T: s.T, X: resArr, Off: resOff, Len: newLen, Cap: resCap}
 }
@@ -660,7 +662,7 @@ func (fr *Frame) copyOp(st *State, d, s *Val, sT types.Type) *Val {
 		sl = s.Len
 		src = func(l leaf, j *Term) *Term {
 			arr := pre.heapGet(heapKey(root, l.path), SArr(SInt, SArr(SInt, sortOf(l.t))))
-			return Select(Select(arr, s.X), Add(s.Off, j))
+			return Select(Select(arr, s.X), SliceIdx(s.Off, j))
 		}
 	}
 	n := Ite(Le(d.Len, sl), d.Len, sl)
@@ -679,8 +681,9 @@ func (fr *Frame) copyOp(st *State, d, s *Val, sT types.Type) *Val {
 		}
 		nc := Fresh("copy!content", srt.Elem)
 		q := BoundVar("j", SInt)
-		c.addFact(Forall([]*Term{q}, Implies(And(Le(Num(0), q), Lt(q, n)), Eq(Select(nc, Add(d.Off, q)), src(l, q)))))
-		c.addFact(Forall([]*Term{q}, Implies(Or(Lt(q, d.Off), Le(Add(d.Off, n), q)), Eq(Select(nc, q), Select(oldC, q)))))
+		m2 := BoundVar("m", SInt)
+		c.addFact(ForallPat([]*Term{m2}, Implies(And(Le(d.Off, m2), Lt(m2, Add(d.Off, n))), Eq(Select(nc, m2), src(l, Sub(m2, d.Off)))), Select(nc, m2)))
+		c.addFact(ForallPat([]*Term{q}, Implies(Or(Lt(q, d.Off), Le(Add(d.Off, n), q)), Eq(Select(nc, q), Select(oldC, q))), Select(nc, q)))
 		st.heapSet(key, Store(arr, d.X, nc))
 	}
 	return &Val{K: KInt, T: types.Typ[types.Int], X: n}
